@@ -4,6 +4,7 @@ Oracle: metamorphic.  One reference run in a generic orientation, then the same 
 Haar rotations + translations and under rotations that put a bonded pair exactly on / in small
 cones around the +-x, +-y, +-z axes.  Also net force / net torque of every run."""
 import math
+import re
 
 import numpy as np
 
@@ -236,7 +237,18 @@ def run_case(case):
             for p in range(3):
                 if p != k:
                     Xt[ja, p] = Xt[ia, p]
-        out = run.single_point(Z, Xt, sett, charges=q, mult=m)
+        try:
+            out = run.single_point(Z, Xt, sett, charges=q, mult=m)
+        except Exception as e:  # the reference orientation of the same molecule completed
+            msg = "%s: %s" % (type(e).__name__, str(e)[:300])
+            if re.search(r"not converge|did not converge|max(imum)? (number of )?iter", msg, re.I):
+                # an iterative solver gave up loudly: same standing as a raised non-convergence flag
+                mon["transformed_frame_solver_gave_up"] = mon.get("transformed_frame_solver_gave_up", 0) + 1
+                continue
+            mon["transformed_frame_raised"] = mon.get("transformed_frame_raised", 0) + 1
+            viol.append({"clause": "raises-in-transformed-frame-only", "mech": classify(Z, Xt, method),
+                         "detail": {"error": msg, "transform": t, "coords": Xt.tolist(), "species": Z}})
+            continue
         if out["notconverged"] is not None and bool(np.any(out["notconverged"])):
             continue
         mon["transforms_compared"] += 1
